@@ -126,6 +126,10 @@ def _get_harness(modname, key):
 def _pool_task(modname, key, prefix, max_paths, max_s, seed, step_limit):
     try:
         h = _get_harness(modname, key)
+        try:
+            step_limit = importlib.import_module(modname).R.lemmas[key[0]].step_limit
+        except Exception:
+            pass
         stats, left = explore(h, max_paths=max_paths, deadline=time.time() + max_s, prefix=prefix,
                               seed=seed, step_limit=step_limit)
         stats['reached'] = sorted(stats['reached'])
